@@ -1,3 +1,4 @@
+import IceTie.Options
 import IceTie.AgentDefaults
 import IceTie.AgentTick
 import IceTie.AgentDispatch
@@ -639,5 +640,32 @@ theorem C03_code_acceptance_defaults :
   ⟨initWithDefaults_nomination_tie, defaultRelayAcceptanceMinWaitFor_tie, fun v w => (defaults_model v w).1⟩
 
 example : IceGen.defaultRelayAcceptanceMinWaitFor true 4 = 0 ∧ IceGen.defaultRelayAcceptanceMinWaitFor true 1 = 2000000000 := by decide
+
+/-! ## Tie to the code (T, round 4): the nomination OPTIONS of agent_options.go (`IceGen.T_Options`) -/
+
+/-- `WithMaxBindingRequests`, the four acceptance-wait options, `WithICELite`, `WithEnableUseCandidateCheckPriority`: refused on a
+constructed agent, otherwise exactly one field written; through the field table they are the updates of the model's `Config` fields
+`maxBindingRequests`, `hostWait` … `relayWait`, `lite`, `useCandCheckPriority` -/
+theorem C03_code_nomination_options :
+    (∀ constructed n, IceGen.opt_WithMaxBindingRequests constructed n = IceTie.Options.guard constructed ([IceTie.Options.setN "a.maxBindingRequests" n], "nil")) ∧
+    (∀ constructed w,
+      IceGen.opt_WithHostAcceptanceMinWait constructed w = IceTie.Options.guard constructed ([IceTie.Options.setI "a.hostAcceptanceMinWait" w], "nil") ∧
+      IceGen.opt_WithSrflxAcceptanceMinWait constructed w = IceTie.Options.guard constructed ([IceTie.Options.setI "a.srflxAcceptanceMinWait" w], "nil") ∧
+      IceGen.opt_WithPrflxAcceptanceMinWait constructed w = IceTie.Options.guard constructed ([IceTie.Options.setI "a.prflxAcceptanceMinWait" w], "nil") ∧
+      IceGen.opt_WithRelayAcceptanceMinWait constructed w = IceTie.Options.guard constructed ([IceTie.Options.setI "a.relayAcceptanceMinWait" w], "nil")) ∧
+    (∀ constructed lite, IceGen.opt_WithICELite constructed lite = IceTie.Options.guard constructed ([IceTie.Options.setB "a.lite" lite], "nil")) ∧
+    (∀ constructed, IceGen.opt_WithEnableUseCandidateCheckPriority constructed
+      = IceTie.Options.guard constructed ([IceTie.Options.setB "a.enableUseCandidateCheckPriority" true], "nil")) ∧
+    (∀ (cfg : Config) (t : Int64) (n : UInt16),
+      IceTie.Options.applyEffs cfg [IceTie.Options.setN "a.maxBindingRequests" n] = { cfg with maxBindingRequests := n.toNat } ∧
+      IceTie.Options.applyEffs cfg [IceTie.Options.setI "a.hostAcceptanceMinWait" t] = { cfg with hostWait := t.toInt.toNat } ∧
+      IceTie.Options.applyEffs cfg [IceTie.Options.setI "a.srflxAcceptanceMinWait" t] = { cfg with srflxWait := t.toInt.toNat } ∧
+      IceTie.Options.applyEffs cfg [IceTie.Options.setI "a.prflxAcceptanceMinWait" t] = { cfg with prflxWait := t.toInt.toNat } ∧
+      IceTie.Options.applyEffs cfg [IceTie.Options.setI "a.relayAcceptanceMinWait" t] = { cfg with relayWait := t.toInt.toNat }) :=
+  ⟨IceTie.Options.WithMaxBindingRequests_tie, IceTie.Options.acceptanceWaits_tie, IceTie.Options.WithICELite_tie, IceTie.Options.WithEnableUseCandidateCheckPriority_tie, IceTie.Options.nomination_cfg⟩
+
+example : IceGen.opt_WithMaxBindingRequests false 3 = ([IceModel.Eff.set "a.maxBindingRequests" (IceModel.Val.n 3)], "nil") ∧
+    (IceTie.Options.applyEffs {} (IceGen.opt_WithSrflxAcceptanceMinWait false 0).1).srflxWait = 0 ∧
+    IceGen.opt_WithICELite true true = ([], "ErrAgentOptionNotUpdatable") := by decide
 
 end IceProps.C03
